@@ -13,9 +13,14 @@ use lru_mem::{HeapSize, LruCache};
 use std::hash::Hash;
 
 pub trait Kit {
-    type K: Hash + Eq + lru_mem::MemSize;
-    type V: lru_mem::MemSize;
+    type K: Hash + Eq + lru_mem::MemSize + Clone;
+    type V: lru_mem::MemSize + Clone;
     const NAME: &'static str;
+    /// cloning a value changes its size estimate (like a Vec with spare
+    /// capacity): a clone is then accounted by the sizes copied from the
+    /// source, so current_size need not equal the sum of entry_size over the
+    /// clone's contents - but it must still return to 0 when the clone is emptied
+    const CLONE_CHANGES_SIZE: bool = false;
     fn key(id: u32) -> Self::K;
     fn val(h: usize) -> Self::V;
     fn key_id(k: &Self::K) -> u32;
@@ -53,6 +58,56 @@ impl Kit for PlainKeyTrackedVal {
     }
 }
 
+/// A value whose size estimate includes slack that a clone does not have.
+pub struct SlackVal {
+    pub heap: usize,
+    pub slack: usize,
+}
+impl Clone for SlackVal {
+    fn clone(&self) -> SlackVal {
+        SlackVal { heap: self.heap, slack: 0 }
+    }
+}
+impl HeapSize for SlackVal {
+    fn heap_size(&self) -> usize {
+        self.heap + self.slack
+    }
+}
+
+pub struct TrackedKeySlackVal;
+impl Kit for TrackedKeySlackVal {
+    type K = TKey;
+    type V = SlackVal;
+    const NAME: &'static str = "LruCache<K, V whose clone has a smaller size estimate>";
+    const CLONE_CHANGES_SIZE: bool = true;
+    fn key(id: u32) -> TKey {
+        TKey::new(id, 0)
+    }
+    fn val(h: usize) -> SlackVal {
+        SlackVal { heap: h, slack: 5 }
+    }
+    fn key_id(k: &TKey) -> u32 {
+        k.id.0
+    }
+}
+
+/// inline sizes that do not add up to a multiple of the entry's alignment
+pub struct PaddedPlain;
+impl Kit for PaddedPlain {
+    type K = u8;
+    type V = u64;
+    const NAME: &'static str = "LruCache<u8, u64>";
+    fn key(id: u32) -> u8 {
+        id as u8
+    }
+    fn val(h: usize) -> u64 {
+        h as u64
+    }
+    fn key_id(k: &u8) -> u32 {
+        *k as u32
+    }
+}
+
 #[derive(Clone, Copy, Debug, PartialEq, Eq)]
 enum TOp {
     Insert(u32),
@@ -65,9 +120,10 @@ enum TOp {
     Reserve,
     Shrink,
     Clear,
+    CloneSwap,
 }
 
-const ALPHA: [TOp; 13] = [
+const ALPHA: [TOp; 14] = [
     TOp::Insert(0),
     TOp::Insert(1),
     TOp::Insert(2),
@@ -81,6 +137,7 @@ const ALPHA: [TOp; 13] = [
     TOp::Reserve,
     TOp::Shrink,
     TOp::Clear,
+    TOp::CloneSwap,
 ];
 
 #[derive(Clone, Copy, Debug, PartialEq, Eq)]
@@ -130,6 +187,62 @@ fn apply<T: Kit>(c: &mut LruCache<T::K, T::V, TBuild>, op: TOp, e: usize) {
         TOp::Reserve => c.reserve(9),
         TOp::Shrink => c.shrink_to_fit(),
         TOp::Clear => c.clear(),
+        TOp::CloneSwap => {
+            let c2 = c.clone();
+            *c = c2;
+        }
+    }
+}
+
+/// C02 on one instantiation: after every step of every sequence.
+fn accounting<T: Kit>(depth: usize, hk: HK, out: &mut TypeVarResult) {
+    let e = {
+        let k = T::key(0);
+        let v = T::val(0);
+        lru_mem::entry_size(&k, &v) - k.heap_size() - v.heap_size()
+    };
+    let mut seqs: Vec<Vec<TOp>> = vec![vec![]];
+    let mut frontier = seqs.clone();
+    for _ in 0..depth {
+        let mut next = vec![];
+        for s in &frontier {
+            for op in ALPHA {
+                let mut n = s.clone();
+                n.push(op);
+                next.push(n);
+            }
+        }
+        seqs.extend(next.iter().cloned());
+        frontier = next;
+    }
+    for seq in &frontier {
+        reg_reset();
+        let mut c: LruCache<T::K, T::V, TBuild> = LruCache::with_hasher(usize::MAX, TBuild { kind: hk });
+        let mut cloned = false;
+        for (i, op) in seq.iter().enumerate() {
+            apply::<T>(&mut c, *op, e);
+            cloned |= matches!(op, TOp::CloneSwap);
+            out.lives += 1;
+            let sum: usize = c.iter().map(|(k, v)| lru_mem::entry_size(k, v)).sum();
+            let n = c.iter().count();
+            let mut why = None;
+            if !(cloned && T::CLONE_CHANGES_SIZE) && c.current_size() != sum {
+                why = Some(format!("current_size() = {} but Σ entry_size(k, v) over the {} held entries = {}", c.current_size(), n, sum));
+            } else if c.len() != n || c.is_empty() != (n == 0) || (c.current_size() == 0) != (n == 0) {
+                why = Some(format!("len() = {}, is_empty() = {}, current_size() = {} with {} entries held", c.len(), c.is_empty(), c.current_size(), n));
+            }
+            if let Some(w) = why {
+                if out.violations.len() < 6 {
+                    out.violations.push(Violation {
+                        props: p(2),
+                        rule: "C02.type-variant",
+                        detail: format!("{} with hasher {}: after {:?}: {}", T::NAME, hk.name(), &seq[..=i], w),
+                    });
+                }
+                break;
+            }
+        }
+        let _ = take_reg_violations();
     }
 }
 
@@ -290,8 +403,16 @@ fn sweep<T: Kit>(depth: usize, hk: HK, props: Props, out: &mut TypeVarResult) {
 pub fn explore(depth: usize, props: Props) -> TypeVarResult {
     let mut out = TypeVarResult { lives: 0, states: 0, violations: vec![] };
     for hk in [HK::Const, HK::Spread] {
-        sweep::<TrackedKeyPlainVal>(depth, hk, props, &mut out);
-        sweep::<PlainKeyTrackedVal>(depth, hk, props, &mut out);
+        if props & (p(6) | p(12) | p(17)) != 0 {
+            sweep::<TrackedKeyPlainVal>(depth, hk, props, &mut out);
+            sweep::<PlainKeyTrackedVal>(depth, hk, props, &mut out);
+        }
+        if props & p(2) != 0 {
+            accounting::<TrackedKeyPlainVal>(depth + 1, hk, &mut out);
+            accounting::<PlainKeyTrackedVal>(depth + 1, hk, &mut out);
+            accounting::<PaddedPlain>(depth + 1, hk, &mut out);
+            accounting::<TrackedKeySlackVal>(depth + 1, hk, &mut out);
+        }
     }
     out
 }
